@@ -74,7 +74,7 @@ theorem leaves_binding_only_on_bind_done (s : Sess) (c : Call) (hr : Reachable s
 
 /-! non-vacuity: the known deviation is real, and a refinement instance on a live history -/
 example : KnownDeviation (Sess.init .server) (.bindResponse 1 none 0 [] [] []) := by
-  exact ⟨rfl, rfl, rfl, by decide⟩
+  exact ⟨rfl, rfl, rfl, by rfl⟩
 example : (run (Sess.init .client) [.bind [] (.simple []) [], .unbind, .extended [49] none []]).1.state = .closed := by decide
 
 end Verif.C08
